@@ -9067,7 +9067,17 @@ bool SoPlexBase<R>::_parseSettingsLine(char* line, const int lineNumber)
                          SPX_SET_MAX_LINE_LEN) == 0)
          {
             int value;
-            value = std::stoi(paramValueString);
+
+            try
+            {
+               value = std::stoi(paramValueString);
+            }
+            catch(const std::exception&)
+            {
+               SPX_MSG_INFO1(spxout, spxout << "Error parsing settings file: invalid value <" << paramValueString
+                             << "> for int parameter <" << paramName << ">.\n");
+               return false;
+            }
 
             if(setIntParam((SoPlexBase<R>::IntParam)param, value, false))
                break;
@@ -9099,15 +9109,24 @@ bool SoPlexBase<R>::_parseSettingsLine(char* line, const int lineNumber)
          {
             Real value;
 
+            try
+            {
 #ifdef WITH_LONG_DOUBLE
-            value = std::stold(paramValueString);
+               value = std::stold(paramValueString);
 #else
 #ifdef WITH_FLOAT
-            value = std::stof(paramValueString);
+               value = std::stof(paramValueString);
 #else
-            value = std::stod(paramValueString);
+               value = std::stod(paramValueString);
 #endif
 #endif
+            }
+            catch(const std::exception&)
+            {
+               SPX_MSG_INFO1(spxout, spxout << "Error parsing settings file: invalid value <" << paramValueString
+                             << "> for real parameter <" << paramName << ">.\n");
+               return false;
+            }
 
             if(setRealParam((SoPlexBase<R>::RealParam)param, value))
                break;
@@ -9166,7 +9185,16 @@ bool SoPlexBase<R>::_parseSettingsLine(char* line, const int lineNumber)
          unsigned int value;
          unsigned long parseval;
 
-         parseval = std::stoul(paramValueString);
+         try
+         {
+            parseval = std::stoul(paramValueString);
+         }
+         catch(const std::exception&)
+         {
+            SPX_MSG_INFO1(spxout, spxout << "Error parsing settings file: invalid value <" << paramValueString
+                          << "> for uint parameter <random_seed>.\n");
+            return false;
+         }
 
          if(parseval > UINT_MAX)
          {
@@ -9564,7 +9592,17 @@ bool SoPlexBase<R>::parseSettingsString(char* string)
                          SPX_SET_MAX_LINE_LEN) == 0)
          {
             int value;
-            value = std::stoi(paramValueString);
+
+            try
+            {
+               value = std::stoi(paramValueString);
+            }
+            catch(const std::exception&)
+            {
+               SPX_MSG_INFO1(spxout, spxout << "Error parsing settings file: invalid value <" << paramValueString
+                             << "> for int parameter <" << paramName << ">.\n");
+               return false;
+            }
 
             if(setIntParam((SoPlexBase<R>::IntParam)param, value, false))
                break;
@@ -9662,7 +9700,16 @@ bool SoPlexBase<R>::parseSettingsString(char* string)
          unsigned int value;
          unsigned long parseval;
 
-         parseval = std::stoul(paramValueString);
+         try
+         {
+            parseval = std::stoul(paramValueString);
+         }
+         catch(const std::exception&)
+         {
+            SPX_MSG_INFO1(spxout, spxout << "Error parsing settings file: invalid value <" << paramValueString
+                          << "> for uint parameter <random_seed>.\n");
+            return false;
+         }
 
          if(parseval > UINT_MAX)
          {
